@@ -91,6 +91,11 @@ pub trait System {
     fn action_json(&self, a: &Self::Action) -> Value;
     fn encode_state(&self, s: &Self::State, e: &mut Enc);
     fn decode_state(&self, d: &mut Dec) -> Self::State;
+    /// Job systems whose single layer holds independent scenarios stop the layer at the first
+    /// violation (the remaining jobs are reported as not run) instead of paying for every one.
+    fn stop_layer_on_violation(&self) -> bool {
+        false
+    }
 }
 
 #[derive(Clone, Debug)]
@@ -150,13 +155,20 @@ fn worker_main<Y: System>(
         let mut w = Worker::new("e1");
         let mut j = wi;
         let mut timed_out = false;
+        let stop_file = path.with_file_name("stop-layer");
         while j < jobs.len() {
             if Instant::now() > deadline {
                 timed_out = true;
                 break;
             }
+            if sys.stop_layer_on_violation() && stop_file.exists() {
+                break;
+            }
             let job = &jobs[j];
             let step = sys.step(&mut w, job.state, &job.action, seen);
+            if sys.stop_layer_on_violation() && !step.violations.is_empty() {
+                let _ = std::fs::write(&stop_file, b"");
+            }
             let mut e = Enc::default();
             e.u8(1);
             e.u32(j as u32);
@@ -379,6 +391,17 @@ pub fn explore<Y: System>(sys: &Y, caps: &Caps) -> Outcome {
                     out.machinery_errors
                         .push(format!("worker {wi} ended with {how} without a trailer"));
                 }
+            }
+        }
+        let stop_file = spool.join("stop-layer");
+        if stop_file.exists() {
+            let _ = std::fs::remove_file(&stop_file);
+            if records.len() < jobs.len() {
+                out.cap_hit.get_or_insert(format!(
+                    "a violation was found: {} of {} scenarios of this layer were not run",
+                    jobs.len() - records.len(),
+                    jobs.len()
+                ));
             }
         }
         records.sort_by_key(|r| r.job);
